@@ -5,7 +5,7 @@
    The 2^31 - 2^17 bound on each submitted stream is part of the theorem: with a 32-bit
    sequence space and unbounded duplication/delay the statement is false without it. *)
 From Elvis Require Import Model.Base Model.U32 Model.Tcb Model.TcpNet
-  Proofs.TcbSafetyDefs Proofs.TcbSafetyEx Proofs.TcbSafetyThms Proofs.TcbLiveSys Proofs.TcbLiveThm Proofs.TcbLiveEnd Proofs.TcbLiveWinRound.
+  Proofs.TcbSafetyDefs Proofs.TcbSafetyEx Proofs.TcbSafetyThms Proofs.TcbLiveSys Proofs.TcbLiveThm Proofs.TcbLiveEnd Proofs.TcbLiveWinRound Proofs.TcbLiveLossRound.
 Local Open Scope Z_scope.
 
 (* safety: in every reachable state of every closed trace (any interleaving of open / write /
@@ -169,3 +169,47 @@ Theorem C01_liveness_from_start_window_partial :
   forall x, sub_of s x = concat (chunks x ws) /\ delivered s (other x) = concat (chunks x ws).
 Proof. exact from_start_window_explicit. Qed.
 Print Assumptions C01_liveness_from_start_window_partial.
+
+(* writes of ARBITRARY size, including above the 64 KiB window: [any_write_trace] follows each
+   write of n bytes by [rounds_for n] = ceil(n / 65535) + 1 loss-free rounds (one flight of at most
+   65535 bytes per round).  From a quiescent state every byte of every write is delivered exactly
+   once and in order, everything is acknowledged and the system is quiescent again.  The bound on
+   the number of rounds (= retransmission timeouts per side) is explicit in the trace. *)
+Theorem C01_liveness_any_size_partial : forall (c : config) (ws : list (side * list Z)) (s : sys) (a b : Z),
+  Quiescent c s a b ->
+  (forall w, In w ws -> 0 < zlen (snd w)) ->
+  let s' := run c s (any_write_trace ws) in
+  (exists a' b', Quiescent c s' a' b') /\
+  forall x, sub_of s' x = sub_of s x ++ concat (chunks x ws) /\
+            delivered s' (other x) = delivered s (other x) ++ concat (chunks x ws).
+Proof. exact liveness_any_explicit. Qed.
+Print Assumptions C01_liveness_any_size_partial.
+
+Theorem C01_liveness_from_start_any_size_partial :
+  forall (c : config) (listenB : bool) (ws : list (side * list Z)),
+  u32 (issA c) -> u32 (issB c) -> 100 <= mtuA c <= 65535 -> 100 <= mtuB c <= 65535 ->
+  (forall w, In w ws -> 0 < zlen (snd w)) ->
+  let s := run c (init_sys listenB) (open_trace listenB ++ any_write_trace ws) in
+  (exists a b, Quiescent c s a b) /\
+  forall x, sub_of s x = concat (chunks x ws) /\ delivered s (other x) = concat (chunks x ws).
+Proof. exact from_start_any_explicit. Qed.
+Print Assumptions C01_liveness_from_start_any_size_partial.
+
+(* loss recovered by the retransmission timeout: a write of up to one window is emitted
+   ([LEmit]: nseg segments in flight), then the network loses the last j segments of the flight,
+   for ANY j <= nseg - the tail, or the whole flight ([drops x nseg j] = j times "drop the last
+   in-flight segment").  The retransmission timer fires in the next loss-free round, the whole
+   flight is retransmitted, and after two rounds every byte has been delivered exactly once, in
+   order, everything is acknowledged and the system is quiescent.  (Partial: losses in the middle
+   of a flight go through the reassembly heap and are not covered; nor are lost ACKs.) *)
+Theorem C01_liveness_tail_loss_partial : forall (c : config) (s : sys) (a b : Z) (x : side) (bytes : list Z),
+  Quiescent c s a b -> 0 < zlen bytes <= 65535 ->
+  let s1 := run c s [LSend x bytes; LEmit x] in
+  let nseg := length (net_of s1 x) in
+  forall j, (j <= nseg)%nat ->
+  let s' := run c s1 (drops x nseg j ++ [LFair 2]) in
+  (exists a' b', Quiescent c s' a' b') /\
+  sub_of s' x = sub_of s x ++ bytes /\ sub_of s' (other x) = sub_of s (other x) /\
+  delivered s' (other x) = delivered s (other x) ++ bytes /\ delivered s' x = delivered s x.
+Proof. exact tail_loss_explicit. Qed.
+Print Assumptions C01_liveness_tail_loss_partial.
